@@ -145,6 +145,7 @@ fn operands() -> Vec<Term> {
         // list operands whose elements are spelled with escapes or braces, a malformed list, and
         // strings that look like integers beyond i64
         var("vle", "a\\ b c"), var("vlb", "{a b} c"), var("vbad", "{"), var("vbig", "9223372036854775808"), var("vhex", "0xFFFFFFFFFFFFFFFF"),
+        flt(".5"), flt(".5e1"), flt("5."), flt("Inf"),
         flt("1E3"), var("ve", "1.5E2"), strq("1E2"), flt("2.5"), flt("1.5"), var("vh", "-2.5"), var("vh2", "-0.5"),
     ]
 }
